@@ -82,9 +82,15 @@ class Real:
             ServerContext.get_token = get_token
             C.HandshakeServerHelloMessage._verif_cap = True
         # one clock for everything connection.py reads
-        C.time = type("VTime", (), {"time": staticmethod(lambda: real.now / TICK),
-                                    "monotonic": staticmethod(lambda: real.now / TICK)})
+        self.bind_clock()
         self.default_mtu = 1500
+
+    def bind_clock(self):
+        """connection.py reads the module-level `time`: make it THIS instance's clock (a later Real() instance rebinds it to its own,
+        so whoever drives real objects with this instance binds it again first)"""
+        real = self
+        self.C.time = type("VTime", (), {"time": staticmethod(lambda: real.now / TICK),
+                                         "monotonic": staticmethod(lambda: real.now / TICK)})
 
     # ------------------------------------------------------------------ endpoints
     def server_ctxt(self, which="good"):
@@ -306,6 +312,7 @@ class CaseRun:
         self.snapshots = snapshots
         self.eps = {}
         self.key_of = {}
+        real.bind_clock()
         real.C.Packet.setMTU(real.default_mtu)
 
     def close(self):
